@@ -43,6 +43,9 @@ def lp_families(tier, seed):
     for c in fam.fam_split()[::3 if not th else 1]:
         if c['coupling'] in ('none', 'storage_start_eq_end') and not any(a['kind'] == 'orderbook' and a['fullexec'] for a in c['assets']):      # LPs only
             out.append(('split', c))
+    # structured assets with internal nodes: the prices of the portfolio's own nodes must not be confused with those of internal nodes
+    for c in fam.fam_structured()[seed % (4 if not th else 1)::(4 if not th else 1)]:
+        out.append(('structured', c))
     out = [(tag, c) for tag, c in out if all(d == 1 for d in c['dt'])]      # the unit injection is a rate: one unit of volume only on unit steps
     # magnitude of cost coefficients: the same portfolios with a back-up source priced at a "value of lost load" (never or rarely used)
     big = []
@@ -86,7 +89,7 @@ def run(tier, seed):
         scale = c['DEN'] * c['VS']
         for solver in (None, 'SCIPY', 'CLARABEL'):
             sel = dict(check='nodal_prices', family=tag, solver=str(solver), route='split' if split else 'mono')
-            real = R.Real(c)
+            real = R.Real(c, struct=c['struct']) if tag == 'structured' else R.Real(c)
             try:
                 with quiet():
                     op = real.setup_split(c['interval']) if split else real.setup()
